@@ -8,10 +8,18 @@ for m in sorted(glob.glob('/verif/seeded/*/meta.json')):
     caught = d.get('caught_by', [])
     others = [c for c in caught if c != tgt]
     rows.append((d['id'], tgt, d['change'].replace('|', '/'), 'yes' if tgt in caught else '**NO**', ' '.join(others) or '-'))
-print("| seed | breaks | change (one line) | caught by its own check | also caught by |")
-print("|---|---|---|---|---|")
+out = ["| seed | breaks | change (one line) | caught by its own check | also caught by |", "|---|---|---|---|---|"]
 for r in rows:
     ch = r[2] if len(r[2]) < 170 else r[2][:167] + '...'
-    print(f"| {r[0]} | {r[1]} | {ch} | {r[3]} | {r[4]} |")
-print()
-print(f"{len(rows)} seeded changes; {sum(1 for r in rows if r[3]=='yes')} caught by the check of the property they were written against.")
+    out.append(f"| {r[0]} | {r[1]} | {ch} | {r[3]} | {r[4]} |")
+out.append("")
+out.append(f"{len(rows)} seeded changes; {sum(1 for r in rows if r[3]=='yes')} caught by the check of the property they were written against.")
+text = "\n".join(out)
+import sys
+if len(sys.argv) > 1 and sys.argv[1] == "--update-design":
+    p = "/verif/DESIGN.md"; d = open(p).read()
+    a = d.index("<!-- SEEDTABLE-BEGIN -->") + len("<!-- SEEDTABLE-BEGIN -->"); b = d.index("<!-- SEEDTABLE-END -->")
+    open(p, "w").write(d[:a] + "\n" + text + "\n" + d[b:])
+    print("DESIGN.md updated;", out[-1])
+else:
+    print(text)
